@@ -6,7 +6,10 @@ import (
 	"fmt"
 	"sort"
 	"strings"
+	"sync/atomic"
 
+	"go.uber.org/zap"
+	"go.uber.org/zap/zapcore"
 	"github.com/openGemini/openGemini/lib/util/lifted/vm/protoparser/influx"
 )
 
@@ -92,4 +95,33 @@ func VerifC03WalkOrdered(m *MmsTables, mst string) (files []VerifC03File, sorted
 		files = append(files, out)
 	}
 	return files, sorted, nil
+}
+
+// ---- panics of a compaction task ------------------------------------------------------------------------------------
+
+// With compact-recovery on (the product's default; the zero-valued configuration of a test binary has it off) a panic
+// inside CompactTask.Execute - e.g. the package's own consistency assertions record.CheckTimes / CheckRecord - is
+// recovered and logged by logCompactPanic, the task ends and the old files stay. The harness has to see that: a hook on
+// the package logger counts those log entries.
+var verifC03Panics int64
+var verifC03LastPanic atomic.Value
+
+func VerifC03WatchCompactPanics() {
+	log = log.WithOptions(zap.Hooks(func(e zapcore.Entry) error {
+		if strings.Contains(e.Message, "Compact Panic:") {
+			atomic.AddInt64(&verifC03Panics, 1)
+			msg := e.Message
+			if i := strings.Index(msg, "\n"); i > 0 {
+				msg = msg[:i]
+			}
+			verifC03LastPanic.Store(msg)
+		}
+		return nil
+	}))
+}
+
+// VerifC03CompactPanics returns the number of recovered compaction panics so far and the head line of the last one.
+func VerifC03CompactPanics() (int64, string) {
+	s, _ := verifC03LastPanic.Load().(string)
+	return atomic.LoadInt64(&verifC03Panics), s
 }
